@@ -17,6 +17,7 @@ import (
 
 	"github.com/privacybydesign/gabi/big"
 	"github.com/privacybydesign/gabi/gabikeys"
+	"github.com/privacybydesign/gabi/internal/common"
 	"github.com/privacybydesign/gabi/internal/vfh"
 	"github.com/privacybydesign/gabi/rangeproof"
 	"pgregory.net/rapid"
@@ -763,6 +764,9 @@ func TestVF_C12_DegenerateCommitments(t *testing.T) {
 
 // fourSquaresSmall: a decomposition of a small non-negative integer into four squares (greedy search)
 func fourSquaresSmall(n int64) []*big.Int {
+	if n < 0 {
+		panic(fmt.Sprintf("vf: fourSquaresSmall(%d): harness asked for a decomposition of a negative number", n))
+	}
 	isqrt := func(x int64) int64 {
 		r := int64(math.Sqrt(float64(x)))
 		for r*r > x {
@@ -773,6 +777,8 @@ func fourSquaresSmall(n int64) []*big.Int {
 		}
 		return r
 	}
+	budget := 2000000 // numbers with very few representations (2*4^k) would take the greedy search forever
+search:
 	for a := isqrt(n); a >= 0; a-- {
 		r1 := n - a*a
 		for b := isqrt(r1); b >= 0; b-- {
@@ -783,8 +789,20 @@ func fourSquaresSmall(n int64) []*big.Int {
 				if d*d == r3 {
 					return []*big.Int{bi(a), bi(b), bi(c), bi(d)}
 				}
+				if budget--; budget < 0 {
+					break search
+				}
 			}
 		}
 	}
-	panic("no four-square decomposition")
+	// fall back to the library's decomposition (any decomposition will do for the prover; it is checked)
+	x, y, z, w := common.SumFourSquares(bi(n))
+	sum := bi(0)
+	for _, v := range []*big.Int{x, y, z, w} {
+		sum.Add(sum, new(big.Int).Mul(v, v))
+	}
+	if sum.Cmp(bi(n)) != 0 {
+		panic("no four-square decomposition")
+	}
+	return []*big.Int{x, y, z, w}
 }
